@@ -374,6 +374,13 @@ class SelInterp(Interp):
         return super().cast(v, ty, node)
 
     def macro(self, name, mac, env, node):
+        if name == "matches" and "matches" in mac:
+            v = self.eval(mac["matches"]["expr"], env)
+            scope = env.child()
+            ok = self.match(mac["matches"]["pat"], v, scope)
+            if ok and mac["matches"]["guard"] is not None:
+                ok = self.cond(mac["matches"]["guard"], scope)
+            return ok
         return super().macro(name, mac, env, node)
 
 
